@@ -3,7 +3,8 @@
 # of property PID against it for several seeds; with ADD_CORPUS=1 the failing inputs found are added to the regression corpus
 # under LABEL
 pid=$1; patch=$2; label=$3; shift 3; seeds=${@:-0 1 2}
-cd /verif
+V=${VERIF_ROOT:-/verif}      # (a scratch copy of /verif when several evaluations run side by side)
+cd $V
 WT=/tmp/evalpatch_wt_$$
 git -C /repo worktree add -q --detach $WT HEAD || exit 2
 if ! git -C $WT apply $patch 2>/dev/null; then echo "$label: patch does not apply"; git -C /repo worktree remove --force $WT; exit 0; fi
@@ -17,4 +18,4 @@ for sd in $seeds; do
   fi
 done
 git -C /repo worktree remove --force $WT 2>/dev/null; rm -rf $WT
-(cd /verif/harness && /venv/bin/python translate.py >/dev/null 2>&1)
+(cd $V/harness && /venv/bin/python translate.py >/dev/null 2>&1)
